@@ -252,6 +252,9 @@ class Net:
         return delays
 
     def client_send(self, tr, data, addr):
+        # host names / alternative spellings of an address resolve like the OS resolver would
+        if addr is not None and addr[0] in getattr(self, "aliases", {}):
+            addr = (self.aliases[addr[0]],) + tuple(addr[1:])
         targets = []
         if addr is not None and addr[0] in ("<broadcast>", "255.255.255.255"):
             targets = [a for a in self.peers if a[1] == addr[1]]
